@@ -12,7 +12,7 @@ PROP = {
     ],
 }
 TEXT = {
-    "text": "Coq theorems over all operation lists (Printf/ExpireLogs/DumpLogEntries with arbitrary integer timestamps, arbitrary tie-breaking, every configuration) by induction with an invariant: exact size accounting, bound, no reachable panic, truncation, newest line kept, reuse of space freed by expiry, eviction of a minimal prefix of the least-recently-updated order, sorted dump; the executable model is compared with glow.EventLogger on time-grid histories (vm_compute), with a property oracle on the implementation's trace alone.",
+    "text": "Coq theorems over all operation lists (Printf/ExpireLogs/DumpLogEntries with arbitrary integer timestamps, arbitrary tie-breaking, every configuration) by induction with an invariant: exact size accounting, bound, no reachable panic, truncation, newest line kept, reuse of space freed by expiry, eviction of a minimal prefix of the least-recently-updated order, sorted dump; the executable model is compared with glow.EventLogger on time-grid histories (vm_compute), with a property oracle on the implementation's trace alone. Added after seeded-change rounds: one line repeated 260 times, then another, then the first again (dump order and eviction follow the last update).",
     "note": "Trusted: Coq kernel + vm_compute, the harness (time grid, oracle), reading of event_log.go into EventLog.v. Mutual exclusion is sync.Mutex (not modelled); timestamps are integers (time.Time monotonic readings).",
     "technique": "Coq proof (induction over operation lists, invariant) + differential correspondence on a time grid (vm_compute)",
 }
